@@ -172,13 +172,12 @@ def addStep (root : Val) (par : PRef) (ni : Option Str) (t : Str) : PyM (Val × 
                   | .dict c kvs => .dict c (kvSet nn emptyN0Dict kvs) | v => v)
                 pure (root, par, nn)
             | some old =>
-              if nidx.truthy then
-                match idxTokStr nidx with
-                | Option.none => .error .Unsupported
-                | some is =>
-                  let (root, par) := modRef root par (fun v => match v with
-                    | .dict c kvs => .dict c (kvSet nn (.list .plain [old]) kvs) | v => v)
-                  pure (root, childRef root par (.key nn), bracket is)
+              -- "Node is EXISTED": reached through the `new()` step of `_find` on a single value (fix C04-a); the
+              -- value becomes the first item of a new list, followed by the placeholder
+              if nidx = .str sNew then
+                let (root, par) := modRef root par (fun v => match v with
+                  | .dict c kvs => .dict c (kvSet nn (.list .n0 [old, Val.none]) kvs) | v => v)
+                pure (root, childRef root par (.key nn), bracket sLast)
               else .error .IndexError
           | _ => .error .Unsupported
         else
